@@ -4,6 +4,7 @@ import GqlVerif.Model.Valid
 import GqlVerif.Model.Serde
 import GqlVerif.Model.EnumSpec
 import GqlVerif.Model.Scope
+import GqlVerif.Model.DefaultLit
 open GqlVerif
 
 def errSexp : Err → Sexp
@@ -103,6 +104,14 @@ def handle (req : Sexp) : Sexp :=
     | some s, some d, some o, some cs =>
       outcomeSexp (fun (ms : List Module) => .list (ms.map Module.toSexp)) (do Codegen.generate (← s) cs o text d)
     | _, _, _, _ => bad "gen"
+  | .list [.atom "defaults", src, doc, .str text, opts, cases] =>
+    -- the bodies of the `default_*` functions of the modules `gen` emits (all modules, in order); errors as `gen`
+    match Decode.schemaSrc src, Decode.qdoc doc, Decode.options opts, Decode.caseFns cases with
+    | some s, some d, some o, some cs =>
+      match (do Codegen.generateDefaults (← s) cs o text d) with
+      | .ok bodies => .list (.atom "defaults" :: Codegen.defaultsSexp bodies.flatten)
+      | .error e => errSexp e
+    | _, _, _, _ => bad "defaults"
   | _ => bad "unknown request"
 
 /-- loaded module environments for the wire-level requests -/
